@@ -352,7 +352,7 @@ int main(int argc, char **argv)
       memcpy(p, i ? "todo/" : "foop/", 5); p[5] = AL[part];
       add_prefix(p, 6); enum_prefix(b, thorough ? 6 : 5); npref = b;
     }
-    nqv_counter("prefixes", npref);
+    if (part == 0) nqv_counter("clean_harness_prefixes", npref);
   } else if (!strcmp(argv[1], "digits")) {
     digits_workload(); run_stream();
     chunkmode = 1; nqv_srand(7); digits_workload();
